@@ -21,6 +21,52 @@ def find_seeds(ctx, binary, kind, n, start):
     return [ln.split()[0] for ln in p.stdout.strip().splitlines()]
 
 
+def find_singles(ctx, binary, n, start):
+    p = subprocess.run([binary, "findseeds", "single", str(n), str(start), "false"], stdout=subprocess.PIPE, text=True, env=goenv(), timeout=600)
+    return [(ln.split()[0], int(ln.split()[3])) for ln in p.stdout.strip().splitlines()]
+
+
+SHORTFALL_CFG = """SPECIFICATION Spec
+CONSTANTS
+    Tables = {%s}
+    OvershootPadsToMultiple = FALSE
+    Sticky = FALSE
+    WriteSizes = {%s}
+    ZeroSampleGuarded = TRUE
+    Modes = {2}
+    TrackTotals = FALSE
+INVARIANT GenShortfall
+CHECK_DEADLOCK FALSE
+"""
+
+
+def shortfall_sessions(ctx, binary):
+    """Single valued tables (about 1%% of seeds) make the paranoid loop deterministic.  The model (pre-repair variant,
+    which is where a shortfall shows) says for which write sizes a write meets a shortfall smaller than a frame header;
+    the real Write is driven with exactly those."""
+    quick = ctx.quick()
+    rng = random.Random(ctx.seed * 31 + 7)
+    singles = [(s, v) for s, v in find_singles(ctx, binary, 14 if quick else 160, (ctx.seed % 1000) * 1000 + 500) if v > 0]
+    sizes = sorted(set([1, 2, 100, 1406, 1427, 1428, 2854, 2855, 4282] + [rng.randrange(1, 4300) for _ in range(30 if quick else 90)]))
+    cfg = SHORTFALL_CFG % (", ".join("{%d}" % v for v in sorted(set(v for _, v in singles))), ", ".join(map(str, sizes)))
+    out, _r = ctx.tlc_emit("Obfs4Shaping", "gen_shortfall.cfg", tag="SHORTFALL", cfg_text=cfg, timeout=600, label="generate (table, size) pairs with a small shortfall")
+    crit = {}
+    for _n, o in out:
+        crit.setdefault(o["tab"][0], set()).add(o["n"])
+    scen = []
+    for i, (seed, v) in enumerate(singles):
+        ns = sorted(crit.get(v, ()))
+        rng.shuffle(ns)
+        ns = ns[:3 if quick else 5] or [rng.choice(sizes)]
+        # small values make long writes slow (one IAT delay per piece): keep the size down there
+        ns = [n if v >= 40 else min(n, 60 * v) for n in ns]
+        for side in ("s", "c"):
+            scen.append({"id": "shortfall%d%s" % (i, side), "kind": "session", "seed": seed, "seedkind": "single", "biased": False,
+                         "smode": 2 if side == "s" else 0, "cmode": 2 if side == "c" else 0, "value": v,
+                         "writes": [{"side": side, "n": n} for n in ns]})
+    return scen, sum(len(x) for x in crit.values())
+
+
 def sessions(ctx, binary):
     quick = ctx.quick()
     rng = random.Random(ctx.seed * 9176 + 3)
@@ -51,6 +97,11 @@ def run(ctx):
     ctx.tlc_expect_ok("Obfs4Shaping", "Obfs4Shaping_live.cfg", label="Write loop terminates (modes 0, 1)", timeout=600)
     ctx.tlc_expect_violation("Obfs4Shaping", "Obfs4Shaping_asis.cfg", "NoPanic", workers=1)
     ctx.tlc_expect_violation("Obfs4Shaping", "Obfs4Shaping_zeroOnly.cfg", "NotStuckParanoid", workers=1)
+    ctx.tlc_expect_ok("Obfs4Shaping", "Obfs4Shaping_singles_quick.cfg" if quick else "Obfs4Shaping_singles_intended.cfg",
+                      label="paranoid Write terminates for every single valued table", timeout=900)
+    ctx.tlc_expect_ok("Obfs4Shaping", "Obfs4Shaping_mixed_quick.cfg" if quick else "Obfs4Shaping_mixed_intended.cfg", label="paranoid Write terminates from every reachable state once the sampler sticks to a value", timeout=900)
+    ctx.tlc_expect_violation("Obfs4Shaping", "Obfs4Shaping_singles_asis_quick.cfg" if quick else "Obfs4Shaping_singles_asis.cfg", "Terminates", timeout=900)
+    ctx.tlc_expect_violation("Obfs4Shaping", "Obfs4Shaping_mixed_asis.cfg", "StuckTerminates", timeout=900)
     binary = ctx.go_build("./cmd/c09")
     # A. the real padBurst on every pair
     targets = list(range(0, 1449)) if not quick else sorted(set(list(range(0, 46)) + list(range(700, 746)) + list(range(1400, 1449))))
@@ -75,6 +126,8 @@ def run(ctx):
     for i in range(6 if quick else 40):
         scen.append({"id": "seedinject%d" % i, "kind": "seedinject", "seed": find_seeds(ctx, binary, "any", 1, 777 + i * 13 + ctx.seed)[0], "biased": bool(i % 2),
                      "smode": i % 3, "cmode": 0, "writes": [{"side": "s", "n": n} for n in (1, 1427, 1428, 100, 2855)]})
+    sf, ncrit = shortfall_sessions(ctx, binary)
+    scen += sf
     st = ctx.exec_scenarios(binary, scen, "sess", shards=14, timeout=1500)
     st += ctx.exec_scenarios(binary, zero_only, "zeroonly", timeout=120)
     st = ctx.drop_dead(st)
@@ -92,13 +145,13 @@ def run(ctx):
         return "obfs4 session rejected at event %s: %s (scenario %s)" % (tr["reject"]["at_event_index"], json.dumps(tr["reject"]["event"])[:300],
                                                                           json.dumps({k: tr["scenario"][k] for k in ("seed", "smode", "cmode", "biased")}))
     match = ctx.devmatcher("Obfs4ShapingTrace", "Obfs4ShapingTrace.cfg",
-                           [("D2", {"ZeroPanicAdmitted": "TRUE"}), ("D2b", {"ZeroOnlyHangAdmitted": "TRUE"})])
+                           [("D2", {"ZeroPanicAdmitted": "TRUE"}), ("D2b", {"ZeroOnlyHangAdmitted": "TRUE"}), ("D2c", {"ShortfallCycleAdmitted": "TRUE"})])
     ctx.settle(rejected, reexec, describe, devmatch=match, attempts=3)
     ctx.assumptions += ["frame boundaries of what padBurst appends are recovered with a framing.Decoder keyed like the encoder (overlay)",
                         "length tables are read through an overlay accessor; the client's table is compared with the server's after the seed frame",
-                        "termination in paranoid mode is probabilistic; 'does not return within 20 s on an unbounded, never-blocking wire' is reported as Hang"]
+                        "termination in paranoid mode is probabilistic for tables of several values: 'no network write for 6 s on an unbounded, never-blocking wire' and 'more than 40 shortfalls worth of padding beyond the data' are reported as Hang"]
     return ctx.finish("model_checking", extra_cov={
-        "exhaustive": not quick, "padburst_pairs_on_real_code": npairs, "sessions": len(st), "writes_validated": nw,
+        "exhaustive": not quick, "padburst_pairs_on_real_code": npairs, "sessions": len(st), "writes_validated": nw, "single_valued_table_sessions": len(sf), "model_predicted_shortfall_pairs": ncrit,
         "rule": "every (tail, target) pair through the real padBurst (quick: all tails x 141 boundary targets) + sessions over seeded tables "
                 "(random, tables containing 0, single-value tables, the {0} table) x IAT modes x bias x write sizes around frame boundaries"})
 
